@@ -5,6 +5,7 @@ import ast
 import re
 
 from vk import astx, numkind, elect, pairsym
+from vk.report import shape_rule
 from vk.algebra import Normalizer, bool_key, literals, spec_rat, NotClosedForm
 from vk.loader import AnalysisError
 from rules import c04, c08
@@ -217,6 +218,7 @@ def r2_counts_and_margin(ctx):
     ctx.check(good, f, f.node, "constructor: fill -> candidates -> pairwise dict -> graph", "", "constructor wiring of the pairwise graph changed")
 
 
+@shape_rule
 def r3_tiers(ctx):
     prog = ctx.prog
     f = prog.find_func("PairwiseComparisonGraph.dominating_tiers")
